@@ -85,3 +85,18 @@ Theorem C10_no_match_without_the_content :
   find_matches pattern student = [].
 Proof. exact no_match_without_the_content. Qed.
 Print Assumptions C10_no_match_without_the_content.
+
+(* where the full-strength statements are false of the faithful model: witnesses of the two recorded findings *)
+From Pedal Require Import model.C10_Findings proof.C10_Refuted.
+
+Theorem C10_same_kind_pairing_refuted :
+  exists m pi si, In m (find_matches f1_pattern f1_student) /\ In (pi, si) (pairs m) /\
+                  kind_at pi f1_pattern = Some "Expr"%string /\ kind_at si f1_student = Some "Assign"%string.
+Proof. exact same_kind_pairing_refuted. Qed.
+Print Assumptions C10_same_kind_pairing_refuted.
+
+Theorem C10_one_identifier_per_placeholder_refuted :
+  exists m, In m (find_matches f2_pattern f2_student) /\
+            In (TFunc, "_f_"%string, "print"%string) (syms m) /\ In (TVar, "_f_"%string, "x"%string) (syms m).
+Proof. exact one_identifier_per_placeholder_refuted. Qed.
+Print Assumptions C10_one_identifier_per_placeholder_refuted.
